@@ -13,7 +13,7 @@
    strict weak order (true for binary64 off NaN). *)
 Require Import Base.Prelude C05.Sweep C05.Tree C05.ProofsTreeBase C05.ProofsTreeRot
         C05.ProofsTreeInv C05.ProofsTreeFix C05.ProofsTreeIns C05.ProofsTreeQry C05.ProofsTreeStruct
-        C05.ProofsTreeDel C05.TreeBounded.
+        C05.ProofsTreeDel C05.ProofsTreeWeak C05.TreeBounded.
 Require Import Permutation.
 Open Scope Z_scope.
 
@@ -179,6 +179,92 @@ Proof.
   exact (t_delete_ok ggt nmin geq klt H1 H2 fuel t key res l).
 Qed.
 Print Assumptions C05_tree_delete_refines.
+
+(* ---- the ONE-SIDED cached-maximum invariant.  WGood h root l: links / parent
+   pointers / distinct ids as in Good, and every cached maximum is SMALLEST_GRAD or is
+   <= the min3 of some node of its subtree ("never too high"); NIL caches
+   SMALLEST_GRAD.  It follows from Good, it is what the query needs, and — unlike
+   Good — it is what the states reached after deletes satisfy in practice. *)
+
+(* (T9) Good implies WGood; both rotations and the whole insert fix-up preserve WGood,
+   the in-order sequence, keys and payloads. *)
+Theorem C05_tree_weak_invariant_rotations :
+  forall (K G N : Type) (ggt : G -> G -> bool) (nmin : N -> G) (smallest : G),
+    (forall a b, ggt a b = true -> ggt b a = false) ->
+    (forall a b c, gle ggt a b -> gle ggt b c -> gle ggt a c) ->
+    (forall (h : @heap K G N) root l, Good ggt nmin smallest h root l -> WGood ggt nmin smallest h root l) /\
+    (forall (h : @heap K G N) root l x h' root',
+        WGood ggt nmin smallest h root l -> In x l -> left_rotate ggt nmin h root x = Some (h', root') ->
+        WGood ggt nmin smallest h' root' l /\ same_kvc h h') /\
+    (forall (h : @heap K G N) root l y h' root',
+        WGood ggt nmin smallest h root l -> In y l -> right_rotate ggt nmin h root y = Some (h', root') ->
+        WGood ggt nmin smallest h' root' l /\ same_kvc h h') /\
+    (forall fuel (h : @heap K G N) root l z h' root',
+        WGood ggt nmin smallest h root l -> In z l -> hred h NIL = false ->
+        ifix ggt nmin fuel h root z = Some (h', root') ->
+        WGood ggt nmin smallest h' root' l /\
+        (forall j, hkey h' j = hkey h j /\ hval h' j = hval h j) /\
+        hred h' NIL = false /\ hred h' root' = false).
+Proof.
+  intros K G N ggt nmin smallest Ha Ht. split; [|split; [|split]].
+  - intros h root l. apply Good_WGood.
+  - intros h root l x h' root' HG Hx Hr.
+    destruct (lrot_wgood ggt nmin smallest Ha _ _ _ _ _ _ HG Hx Hr) as (A & B & _). split; assumption.
+  - intros h root l y h' root' HG Hy Hr.
+    destruct (rrot_wgood ggt nmin smallest Ha _ _ _ _ _ _ HG Hy Hr) as (A & B & _). split; assumption.
+  - intros fuel h root l z h' root' HG Hz Hb Hf.
+    exact (ifix_ok_w ggt nmin smallest Ha fuel h root l z h' root' (conj HG (conj Hz Hb)) Hf).
+Qed.
+Print Assumptions C05_tree_weak_invariant_rotations.
+
+(* (T10) _insert_into_tree preserves WGood and refines st_insert (as T5, without the
+   premise SMALLEST_GRAD <= min3 of the new node). *)
+Theorem C05_tree_insert_refines_weak :
+  forall (K G N : Type) (klt : K -> K -> bool) (ggt : G -> G -> bool) (nmin : N -> G) (smallest : G),
+    (forall a b, ggt a b = true -> ggt b a = false) ->
+    (forall a b c, klt a b = true -> klt b c = true -> klt a c = true) ->
+    forall fuel (t : @tree K G N) id k v t' l,
+      WGood ggt nmin smallest (th t) (troot t) l -> KSorted klt (th t) l -> l <> [] ->
+      hred (th t) NIL = false ->
+      id <> NIL -> ~ In id l ->
+      has_key klt k (tabs (th t) l) = false ->
+      t_insert klt ggt nmin smallest fuel t id k v = Some t' ->
+      exists l1 l2, l = l1 ++ l2 /\
+        WGood ggt nmin smallest (th t') (troot t') (l1 ++ id :: l2) /\
+        KSorted klt (th t') (l1 ++ id :: l2) /\
+        tabs (th t') (l1 ++ id :: l2) = tabs (th t) l1 ++ (k, v) :: tabs (th t) l2 /\
+        st_insert klt k v (tabs (th t) l) = inr ((k, v) :: tabs (th t) l) /\
+        Permutation (tabs (th t') (l1 ++ id :: l2)) ((k, v) :: tabs (th t) l) /\
+        hred (th t') NIL = false /\ hred (th t') (troot t') = false.
+Proof.
+  intros K G N klt ggt nmin smallest H1 H3 fuel t id k v t' l.
+  exact (t_insert_refines_w ggt nmin smallest H1 klt H3 fuel t id k v t' l).
+Qed.
+Print Assumptions C05_tree_insert_refines_weak.
+
+(* (T11) the query under the ONE-SIDED invariant: as T6 with WGood in place of Good
+   (the phase-1 premise is the same: it is stated for every nearer node). *)
+Theorem C05_tree_query_refines_weak :
+  forall (A K G N : Type) (klt : K -> K -> bool) (ggt : G -> G -> bool) (nmin : N -> G)
+         (ncontrib : N -> A -> option G) (smallest : G),
+    (forall a b, ggt a b = true -> ggt b a = false) ->
+    (forall a b c, gle ggt a b -> gle ggt b c -> gle ggt a c) ->
+    (forall a b c, klt a b = true -> klt b c = true -> klt a c = true) ->
+    (forall a, klt a a = false) ->
+    (forall a b c, klt a c = true -> klt a b = true \/ klt b c = true) ->
+    forall fuel (t : @tree K G N) l k a g r,
+      WGood ggt nmin smallest (th t) (troot t) l -> KSorted klt (th t) l -> l <> [] ->
+      gle ggt smallest g ->
+      (forall j, In j l -> klt (hkey (th t) j) k = true -> ggt (hmin nmin (th t) j) g = true ->
+                 hit ggt ncontrib g a (hval (th t) j) = true) ->
+      t_query klt ggt nmin ncontrib smallest fuel t k a g = Some r ->
+      exists m, r = QVal m /\
+        negb (ggt m g) = visible_q klt ggt nmin ncontrib (tabs (th t) l) k a g.
+Proof.
+  intros A K G N klt ggt nmin ncontrib smallest H1 H2 H3 H4 H5 fuel t l k a g r.
+  exact (t_query_ok_w ggt nmin smallest H1 H2 klt H3 ncontrib H4 H5 fuel t l k a g r).
+Qed.
+Print Assumptions C05_tree_query_refines_weak.
 
 (* (T4) BOUNDED (vm_compute): on the exact integer instance (keys, gradients in Z, a
    node's payload = its constant gradient, SMALLEST_GRAD = -100, 64 rows), for EVERY
